@@ -23,6 +23,9 @@ class _DirEntry:
         self.path = path
 
 
+LAZY = False  # default for VFS.lazy (set per batch)
+
+
 class VFS:
     def __init__(self, root="/r", root_ent=Ent(1000, 0, True, 0, 0), as_bytes=False):
         self.as_bytes = as_bytes
@@ -34,6 +37,9 @@ class VFS:
         self.faults: dict[int, int] = {}
         self.fired: list[tuple[int, str, object, int]] = []
         self.keep_log = False
+        # lazy: listdir returns a generator that does its work (and fails) on the first next(), like
+        # `def listdir(p): with os.scandir(p) as it: yield from it` - legal for the injectable listdir
+        self.lazy = LAZY
         self.hook = None  # called as hook(vfs, kind, path) before each call (may mutate state: races)
 
     # -- helpers
@@ -95,6 +101,14 @@ class VFS:
         return St(e.ino, e.dev, mode, e.mtime, e.size, 1, 0, 0, 0, 0)
 
     def listdir(self, path):
+        if self.lazy:
+            return self._listdir_gen(path)
+        return self._listdir(path)
+
+    def _listdir_gen(self, path):
+        yield from self._listdir(path)
+
+    def _listdir(self, path):
         self._maybe_fault("listdir", path)
         rel = self._rel(path)
         e = self._lookup(rel)
